@@ -226,6 +226,8 @@ func checkC05(r *core.Run) {
 	r.Rule("CAP-reserve: {Store, Ready, timeout handler} have no write on node:Pledge/value/ and no bank inflow into the node module")
 	r.Rule("T-sched-meta: RemoveMetadata(d) is accompanied by removeDataExpireBlock(d, ...) unless every caller is the schedule consumer (model end-blocker)")
 	r.Rule("T-rollback: RollbackMeta restores OrderId from the last element of the model's own Orders list and Commit from the last element of its own Commits list (index len(same list)-1); status back to complete")
+	r.Rule("T-unschedule: removeDataExpireBlock writes back, when other ids remain at that height, a list collected only from ids tested unequal to the one being dropped (the rollback of a cancelled order leaves no expiry entry behind)")
+	ruleUnschedule(r, "T-unschedule")
 	r.Assume(aDeps)
 	r.Assume(aCG)
 	ruleFlows(r, "C05")
